@@ -9,7 +9,9 @@ VERIF = os.path.dirname(os.path.dirname(os.path.abspath(__file__)))
 SIM_NOTE = (
     "Trusted base: the harness (audit-hook agent, deterministic scheduler, simulated sbatch/squeue/scancel, job probes, fork server), "
     "CPython's audit events as the granularity of interleaving (file open->write->close and lock-marker creation are atomic), one Linux kernel "
-    "(no Lustre/NFS incoherence). Held = held on the executions the evidence file counts, not proved."
+    "(no Lustre/NFS incoherence), and an exclusive lock: the installed filelock's stale-marker break (read, rename, unlink) is scheduled as one step, "
+    "because its documented race can detach a live holder's marker (runs in which that is observed are inconclusive). "
+    "Held = held on the executions the evidence file counts, not proved."
 )
 COMP_NOTE = (
     "Trusted base: the component harness driving JADE's real classes/functions in-process or as real subprocesses, the expectation tables written "
